@@ -2370,7 +2370,7 @@ pub fn unpack_columns(mut buf: &[u8]) -> Result<Vec<SqliteValueRef<'_>>, UnpackE
                 if buf.remaining() < intlen {
                     return Err(UnpackError::Abort);
                 }
-                let len = buf.get_int(intlen) as usize;
+                let len = if intlen == 0 { 0 } else { buf.get_uint(intlen) as usize };
                 if buf.remaining() < len {
                     return Err(UnpackError::Abort);
                 }
@@ -2387,7 +2387,14 @@ pub fn unpack_columns(mut buf: &[u8]) -> Result<Vec<SqliteValueRef<'_>>, UnpackE
                 if buf.remaining() < intlen {
                     return Err(UnpackError::Abort);
                 }
-                ret.push(SqliteValueRef(ValueRef::Integer(buf.get_int(intlen))));
+                // integers are packed into the fewest bytes that hold their set bits: only a
+                // full 8-byte integer carries a sign bit, shorter ones must not be sign-extended
+                let value = match intlen {
+                    0 => 0,
+                    8 => buf.get_int(8),
+                    n => buf.get_uint(n) as i64,
+                };
+                ret.push(SqliteValueRef(ValueRef::Integer(value)));
             }
             Some(ColumnType::Null) => {
                 ret.push(SqliteValueRef(ValueRef::Null));
@@ -2396,7 +2403,7 @@ pub fn unpack_columns(mut buf: &[u8]) -> Result<Vec<SqliteValueRef<'_>>, UnpackE
                 if buf.remaining() < intlen {
                     return Err(UnpackError::Abort);
                 }
-                let len = buf.get_int(intlen) as usize;
+                let len = if intlen == 0 { 0 } else { buf.get_uint(intlen) as usize };
                 if buf.remaining() < len {
                     return Err(UnpackError::Abort);
                 }
